@@ -448,7 +448,7 @@ func checkC13(c *core.Ctx) {
 		fromDecode := map[types.Object]bool{}
 		ast.Inspect(f.Body, func(m ast.Node) bool {
 			if as, ok := m.(*ast.AssignStmt); ok && len(as.Rhs) == 1 {
-				if call, ok := as.Rhs[0].(*ast.CallExpr); ok && wire.Canon(call.Fun) == "decodeIntegerType" {
+				if call, ok := as.Rhs[0].(*ast.CallExpr); ok && calleeNamed(call, "decodeIntegerType") {
 					for _, l := range as.Lhs {
 						if id, ok := l.(*ast.Ident); ok {
 							fromDecode[info.ObjectOf(id)] = true
@@ -460,7 +460,7 @@ func checkC13(c *core.Ctx) {
 		})
 		passed := false
 		ast.Inspect(f.Body, func(m ast.Node) bool {
-			if call, ok := m.(*ast.CallExpr); ok && wire.Canon(call.Fun) == "readEnumOptionValue" && bitParam >= 0 && bitParam < len(call.Args) {
+			if call, ok := m.(*ast.CallExpr); ok && calleeNamed(call, "readEnumOptionValue") && bitParam >= 0 && bitParam < len(call.Args) {
 				if id, ok := ast.Unparen(call.Args[bitParam]).(*ast.Ident); ok && fromDecode[info.ObjectOf(id)] {
 					passed = true
 				}
